@@ -121,7 +121,6 @@ func (r *Raft) requestConfigChange(req configurationChangeRequest, timeout time.
 	future := &configurationChangeFuture{
 		req: req,
 	}
-	future.ShutdownCh = r.shutdownCh
 	future.init()
 	select {
 	case <-timer:
